@@ -79,9 +79,10 @@ class Site:
         self.body, self.kind, self.what, self.span, self.call, self.bb, self.extra = body, kind, what, span, call, bb, extra
         self.ordinal = 0
         self.discharged_by = None
+        self.origin = body.blocks[bb].get("origin", body.path) if bb is not None and bb < len(body.blocks) else body.path
 
     def short_fn(self):
-        p = self.body.path
+        p = self.origin
         p = re.sub(r"selium(_\w+)?::", "", p)
         return p
 
@@ -139,8 +140,8 @@ def enumerate_sites(body, include_alloc=True, narrowing=False):
             sites.append(Site(body, "assert", what, t["span"], None, i, extra=t))
     # ordinals per (what) in source order
     groups = {}
-    for s in sorted(sites, key=lambda s: (_span_key(s.span), s.bb or 0)):
-        k = s.what
+    for s in sorted(sites, key=lambda s: (s.origin, _span_key(s.span), s.bb or 0)):
+        k = (s.origin, s.what)
         s.ordinal = groups.get(k, 0)
         groups[k] = s.ordinal + 1
     return sites
@@ -714,31 +715,35 @@ def rule_narrowing_cast(site, body):
 
 
 def analyse(ctx, bodies, rule_prefix, extra_rules=(), table=None, skip=None, include_alloc=True, F=None, must_ok=None, narrowing=False):
-    """Enumerate and discharge. table: {site-key: (reason, obligation(body, site)->bool)} (D6).
-    Returns (sites, findings)"""
+    """Enumerate and discharge. A site in a helper function that cannot be discharged locally is retried in the context of every
+    caller within `bodies` (the helper inlined into the caller), so that a guard may sit on either side of an extracted function."""
     sites_all = []
+    rules = list(extra_rules) + DEFAULT_RULES
+    pending = []
+    by_path = {b.path: b for b in bodies}
+
+    def try_rules(s, b):
+        for r in rules:
+            reason = r(s, b)
+            if reason:
+                return reason
+        if must_ok is not None and s.kind == "unwrap" and s.what.startswith("Result"):
+            rt = flow.root(b, s.call.args[0], through_calls=())
+            if rt[0] == "call":
+                res = rt[1].t.get("resolved") or rt[1].callee
+                if res in must_ok:
+                    return "D3: callee %s never returns Err" % res
+        return None
     for b in bodies:
         ctx.touch(b)
         for s in enumerate_sites(b, include_alloc=include_alloc, narrowing=narrowing):
             if skip and skip(s):
                 continue
             sites_all.append(s)
-            reason = None
-            for r in list(extra_rules) + DEFAULT_RULES:
-                reason = r(s, b)
-                if reason:
-                    break
-            if not reason and must_ok is not None and s.kind == "unwrap" and s.what.startswith("Result"):
-                # D3: unwrap of the result of a workspace callee that never returns Err
-                rt = flow.root(b, s.call.args[0], through_calls=())
-                if rt[0] == "call":
-                    res = rt[1].t.get("resolved") or rt[1].callee
-                    if res in must_ok:
-                        reason = "D3: callee %s never returns Err" % res
+            reason = try_rules(s, b)
             if not reason and table and s.key() in table:
                 why, ob = table[s.key()]
-                okb = ob(b, s)
-                if okb:
+                if ob(b, s):
                     reason = "D6: %s" % why
                 else:
                     ctx.fail(rule_prefix + ".obligation", s.key() + ":obligation",
@@ -748,45 +753,76 @@ def analyse(ctx, bodies, rule_prefix, extra_rules=(), table=None, skip=None, inc
                 s.discharged_by = reason
                 ctx.discharged(rule_prefix, "%s in %s" % (s.what, s.short_fn()), s.span, reason)
             else:
-                ctx.fail(rule_prefix, s.key(), "undischarged %s site `%s` in %s (a peer-/configuration-controlled value can reach it)"
-                         % (s.kind, s.what, b.path), s.span)
+                pending.append((s, b))
+    for s, b in pending:
+        reason = None
+        if F is not None:
+            callers = [cb for cb in bodies if cb is not b and any((c.t.get("resolved") or c.callee) == b.path for c in cb.calls())]
+            if callers:
+                oks = []
+                for cb in callers:
+                    ib = F.inlined(cb)
+                    twin = [x for x in enumerate_sites(ib, include_alloc=include_alloc, narrowing=narrowing) if x.origin == b.path and x.what == s.what and x.ordinal == s.ordinal]
+                    r = None
+                    for x in twin:
+                        r = try_rules(x, ib)
+                        if not r:
+                            break
+                    oks.append(r if twin else None)
+                if oks and all(oks):
+                    reason = "guarded in every caller (%d): %s" % (len(oks), oks[0])
+        if reason:
+            s.discharged_by = reason
+            ctx.discharged(rule_prefix, "%s in %s" % (s.what, s.short_fn()), s.span, reason)
+        else:
+            ctx.fail(rule_prefix, s.key(), "undischarged %s site `%s` in %s (a peer-/configuration-controlled value can reach it)"
+                     % (s.kind, s.what, b.path), s.span)
     return sites_all
 
 
 def must_return_ok(F, body, memo=None):
-    """every Return is reached with _0 = Ok(..) | Ready(Ok(..)) | Pending (never Err): conservative syntactic check:
-    no `Result::Err` aggregate and no from_residual call and no call returning a Result that flows to _0 unmodified"""
-    for i, j, pl, rv, s in body.assigns():
-        if rv["k"] == "agg" and rv.get("agg") == "adt" and rv["adt"] == "core::result::Result" and rv["variant"] == "Err":
+    """every Return is reached with _0 = Ok(..) | Ready(Ok(..)) | Pending (never Err). Conservative and syntactic, evaluated on the body
+    with workspace-local callees inlined: every value that can flow into _0 is such an aggregate; no `?` propagation."""
+    try:
+        ib = F.inlined(body) if F is not None else body
+    except Exception:
+        ib = body
+    for c in ib.calls():
+        if strip_generics(c.callee) == "core::ops::try_trait::FromResidual::from_residual":
             return False
-    for c in body.calls():
-        n = strip_generics(c.callee)
-        if n == "core::ops::try_trait::FromResidual::from_residual":
+
+    def val_ok(l, seen, want):
+        if (l, want) in seen:
+            return True
+        seen = seen | {(l, want)}
+        defs = ib.defs().get(l, [])
+        if not defs:
             return False
-        if c.dest is not None and c.dest["l"] == 0 and not c.dest["p"]:
-            return False   # result comes straight from another call: unknown
-    # _0 must be built from Ok / Ready / Pending aggregates only
-    for i, j, pl, rv, s in body.assigns():
-        if pl["l"] == 0 and not pl["p"]:
+        for d in defs:
+            if d[0] != "assign":
+                return False
+            rv = d[3]
             if rv["k"] == "agg" and rv.get("agg") == "adt":
-                if rv["adt"] == "core::result::Result" and rv["variant"] == "Ok":
+                if rv["adt"] == "core::result::Result":
+                    if rv["variant"] != "Ok":
+                        return False
                     continue
-                if rv["adt"] == "core::task::poll::Poll":
+                if rv["adt"] == "core::task::poll::Poll" and want == "top":
                     if rv["variant"] == "Pending":
                         continue
-                    r = flow.root(body, rv["ops"][0])
-                    if r[0] == "rv" and r[1]["k"] == "agg" and r[1].get("adt") == "core::result::Result" and r[1]["variant"] == "Ok":
+                    o = rv["ops"][0]
+                    if o.get("k") in ("copy", "move") and not o["pl"]["p"] and val_ok(o["pl"]["l"], seen, "result"):
                         continue
                     return False
                 return False
-            if rv["k"] == "use":
-                r = flow.root(body, rv["op"])
-                if r[0] == "rv" and r[1]["k"] == "agg" and r[1].get("adt") in ("core::result::Result", "core::task::poll::Poll"):
-                    if r[1]["variant"] in ("Ok", "Pending"):
-                        continue
+            if rv["k"] == "use" and rv["op"].get("k") in ("copy", "move") and not rv["op"]["pl"]["p"]:
+                if val_ok(rv["op"]["pl"]["l"], seen, want):
+                    continue
                 return False
             return False
-    return True
+        return True
+    return val_ok(0, frozenset(), "top")
+
 
 SHRINKERS = {"alloc::vec::Vec::swap_remove", "alloc::vec::Vec::remove", "alloc::vec::Vec::pop", "alloc::vec::Vec::truncate", "alloc::vec::Vec::clear",
              "alloc::vec::Vec::drain", "alloc::vec::Vec::retain", "alloc::vec::Vec::split_off"}
@@ -843,6 +879,20 @@ def rule_loop_index(site, body):
             if stale:
                 continue
             return "loop-index: guarded by idx < len() (bb%d) with the bound re-read after every removal" % gbb
+    # (c) index found by Iterator::position / rposition over the same vector, no removal in between
+    r0 = flow.payload_source(body, c.args[1])
+    if r0 and r0[0] == "call" and strip_generics(r0[1].callee) in ("core::iter::traits::iterator::Iterator::position", "core::iter::traits::iterator::Iterator::rposition"):
+        pc = r0[1]
+        src = flow.root(body, pc.args[0], through_calls=tuple(flow.ADAPTERS) + ("core::slice::<impl [T]>::iter", "core::slice::<impl [T]>::iter_mut", "core::iter::traits::collect::IntoIterator::into_iter"))
+        same = False
+        if src[0] == "rv" and "pl" in src[1]:
+            same = place_identity(body, {"k": "copy", "pl": src[1]["pl"]}) == vec_id
+        elif src[0] in ("arg", "multi", "local"):
+            same = place_identity(body, {"k": "copy", "pl": {"l": src[1], "p": []}}) == vec_id
+        after = flow.reach_avoiding(body, [pc.target] if pc.target is not None else [], [site.bb])
+        between = [h for h in shr if h is not c and h.bb in after]
+        if same and not between:
+            return "loop-index: index returned by position() over the same vector, no removal in between"
     # (b) `for i in 0..vec.len()`: index from a Range iterator whose end is len(); removal only on paths that leave the loop
     r = flow.payload_source(body, c.args[1])
     if r and r[0] == "call" and strip_generics(r[1].callee) == "core::iter::traits::iterator::Iterator::next" and "Range<usize>" in r[1].self_ty:
